@@ -123,7 +123,7 @@ func (ex *Exec) callExternal(fr *Frame, name string, sig *types.Signature, recv 
 	case strings.HasSuffix(short, "(types.Context).BlockHeader"):
 		c := ex.ctxOf(recv)
 		rt := sig.Results().At(0).Type()
-		h := Fresh("header", sortOf(rt))
+		h := Det("header", sortOf(rt), c.Time, c.Height, c.Chain)
 		if fi, _, ok := structFieldIndex(rt, "Time"); ok {
 			st.AssumeDef(Eq(Sel(h.Sort.DT, 0, fi, h), c.Time))
 		}
@@ -251,7 +251,7 @@ func (ex *Exec) callExternal(fr *Frame, name string, sig *types.Signature, recv 
 		if b.Op == "tm" {
 			okk = True
 		}
-		e := Fresh("err_parsetime", SErr)
+		e := Det("err_parsetime", SErr, b)
 		st.AssumeDef(Eq(Eq(e, ErrNil), okk))
 		return one(&TupleV{Elems: []Val{DecTM(b), e}})
 	case short == "bytes.Equal":
@@ -261,9 +261,9 @@ func (ex *Exec) callExternal(fr *Frame, name string, sig *types.Signature, recv 
 	case short == "strings.HasPrefix":
 		return one(BPre(ex.asBytes(st, args[1]), ex.asBytes(st, args[0])))
 	// ---------- protobuf / amino codecs
-	case method == "MustMarshal" || method == "Marshal" || method == "MustMarshalJSON" || method == "MarshalJSON" || method == "MarshalInterface":
+	case method == "MustMarshal" || method == "Marshal" || method == "MustMarshalJSON" || method == "MarshalJSON" || method == "MarshalInterface" || method == "MarshalBinary":
 		return ex.marshal(st, short, method, sig, recv, args, call)
-	case method == "MustUnmarshal" || method == "Unmarshal" || method == "MustUnmarshalJSON" || method == "UnmarshalJSON" || method == "UnmarshalInterface":
+	case method == "MustUnmarshal" || method == "Unmarshal" || method == "MustUnmarshalJSON" || method == "UnmarshalJSON" || method == "UnmarshalInterface" || method == "UnmarshalBinary":
 		return ex.unmarshal(st, short, method, sig, recv, args, call)
 	// ---------- errors & formatting
 	case short == "fmt.Errorf" || short == "errors.New" || short == "errors.New" || strings.HasSuffix(short, "errors.Register") || short == "errors.Join":
@@ -284,9 +284,29 @@ func (ex *Exec) callExternal(fr *Frame, name string, sig *types.Signature, recv 
 		b := ex.asTerm(st, args[1], types.Universe.Lookup("error").Type())
 		return one(And(Neq(a, ErrNil), Eq(App("err_root", a), App("err_root", b))))
 	case strings.HasPrefix(short, "fmt.Sprint"):
-		// strings built for logs / errors / events: opaque, but a function of nothing we rely on
+		// a deterministic function of the format and the arguments (when their number is known)
+		if sl, ok := args[len(args)-1].(*SliceV); ok && sl.Len.Op == "int" && sl.Len.Int.Int64() <= 6 {
+			var ts []*Term
+			var ss []*Sort
+			if short == "fmt.Sprintf" {
+				ts = append(ts, ex.asBytes(st, args[0]))
+				ss = append(ss, SBytes)
+			}
+			arr := ex.content(st, sl.Obj).(*Term)
+			for i := int64(0); i < sl.Len.Int.Int64(); i++ {
+				ts = append(ts, Select(arr, Add(sl.Off, IntLit(i))))
+				ss = append(ss, arr.Sort.Elem)
+			}
+			n := "sprint_" + sortsKey(ss)
+			DeclareUF(n, ss, SBytes)
+			return one(App(n, ts...))
+		}
 		return one(Fresh("fmtstr", SBytes))
 	case strings.HasSuffix(short, ".Error") && sig.Params().Len() == 0 && sig.Results().Len() == 1 && sortOf(sig.Results().At(0).Type()) == SBytes:
+		DeclareUF("errstr", []*Sort{SErr}, SBytes)
+		if rt, ok := recv.(*Term); ok && rt.Sort == SErr {
+			return one(App("errstr", rt))
+		}
 		return one(Fresh("errstr", SBytes))
 	case strings.HasSuffix(short, ".String") && sig.Params().Len() == 0 && recvIsLogOnly(recv):
 		return one(Fresh("str", SBytes))
@@ -347,9 +367,17 @@ func (ex *Exec) freshNonNilErrBase(st *State, recv Val) *Term {
 	return ex.freshNonNilErr(st, "base")
 }
 
+var siteIds = map[string]int{}
+
 func (ex *Exec) wrapErr(st *State, base *Term) *Term {
 	DeclareUF("err_root", []*Sort{SErr}, SErr)
-	e := Fresh("err_wrap", SErr)
+	DeclareUF("err_wrap", []*Sort{SInt, SErr}, SErr)
+	id, ok := siteIds[ex.site]
+	if !ok {
+		id = len(siteIds) + 1
+		siteIds[ex.site] = id
+	}
+	e := App("err_wrap", IntLit(int64(id)), base)
 	st.AssumeDef(Eq(Eq(e, ErrNil), Eq(base, ErrNil)))
 	st.AssumeDef(Eq(App("err_root", e), App("err_root", base)))
 	return e
@@ -370,9 +398,13 @@ var iterCounter int
 func (ex *Exec) newIterator(st *State, s *StoreV, prefix, lo, hi *Term, reverse bool) Val {
 	iterCounter++
 	S := st.worlds[s.World].S
-	n := Fresh("itn", SInt)
-	keyAt := fmt.Sprintf("itkey!%d", iterCounter)
-	idxOf := fmt.Sprintf("itidx!%d", iterCounter)
+	var rv *Term
+	if reverse {
+		rv = True
+	}
+	n := Det("itn", SInt, S, prefix, lo, hi, rv)
+	keyAt := DetName("itkey", S, prefix, lo, hi, rv)
+	idxOf := DetName("itidx", S, prefix, lo, hi, rv)
 	DeclareUF(keyAt, []*Sort{SInt}, SBytes)
 	DeclareUF(idxOf, []*Sort{SBytes}, SInt)
 	DeclareUF("key_lt", []*Sort{SBytes, SBytes}, SBool)
@@ -475,6 +507,9 @@ func (ex *Exec) marshal(st *State, short, method string, sig *types.Signature, r
 	if strings.Contains(method, "JSON") {
 		codec = "json"
 	}
+	if strings.Contains(method, "Binary") {
+		codec = "bin"
+	}
 	enc := PBEnc(pbTag(vt, codec), val)
 	if sig.Results().Len() == 2 {
 		// (bytes, error): marshalling of a well-typed value does not fail (T5)
@@ -523,6 +558,9 @@ func (ex *Exec) unmarshal(st *State, short, method string, sig *types.Signature,
 	if strings.Contains(method, "JSON") {
 		codec = "json"
 	}
+	if strings.Contains(method, "Binary") {
+		codec = "bin"
+	}
 	tag := pbTag(et, codec)
 	s := sortOf(et)
 	okk := PBOk(tag, s, bz)
@@ -546,9 +584,11 @@ func (ex *Exec) unmarshal(st *State, short, method string, sig *types.Signature,
 		return one(nil)
 	}
 	// on failure the target content is unspecified
-	junk := Fresh("unmarshal_junk", s)
+	DeclareUF("pbjunk_"+tag, []*Sort{SBytes}, s)
+	DeclareUF("pberr_"+tag, []*Sort{SBytes}, SErr)
+	junk := App("pbjunk_"+tag, bz)
 	ex.store(st, p, Ite(okk, dec, junk), et)
-	e := Fresh("err_unmarshal", SErr)
+	e := App("pberr_"+tag, bz)
 	st.AssumeDef(Eq(Eq(e, ErrNil), okk))
 	return one(e)
 }
@@ -587,13 +627,13 @@ func (ex *Exec) sortSlice(fr *Frame, st *State, args []Val, call *ssa.Call, stab
 		return one(nil)
 	}
 	oldArr := ex.content(st, sl.Obj).(*Term)
-	newArr := Fresh("sorted", oldArr.Sort)
+	lessId := Var("fn:"+less.Fn.String(), SInt)
+	newArr := Det("sorted", oldArr.Sort, oldArr, sl.Off, sl.Len, lessId)
 	n := sl.Len
 	off := sl.Off
 	// permutation: bijection pi on [0,n)
-	iterCounter++
-	pi := fmt.Sprintf("perm!%d", iterCounter)
-	pinv := fmt.Sprintf("perminv!%d", iterCounter)
+	pi := DetName("perm", oldArr, sl.Off, sl.Len, lessId)
+	pinv := DetName("perminv", oldArr, sl.Off, sl.Len, lessId)
 	DeclareUF(pi, []*Sort{SInt}, SInt)
 	DeclareUF(pinv, []*Sort{SInt}, SInt)
 	i := BVar("i!so", SInt)
@@ -614,3 +654,5 @@ func (ex *Exec) sortSlice(fr *Frame, st *State, args []Val, call *ssa.Call, stab
 	}
 	return one(nil)
 }
+
+var _ = fmt.Sprintf
